@@ -48,6 +48,13 @@ def scenario(seed, si):
             entries.append({"t": "f", "p": d + "/" + names[k % len(names)] + str(k), "fam": 100 + g + si * 10, "len": L, "flip": [],
                             "mtime": mt})
             k += 1
+    if (si // len(OPS)) % 3 == 1 and op != "dedupe":  # (the FICLONE emulation cannot clone a file onto itself)
+        # the second member of the first group is a hard link of the first one, and the report is made with
+        # --match-links: the two names of one file end up on different sides of the keep/drop split
+        fl = [e for e in entries if e["t"] == "f"]
+        if len(fl) >= 2 and fl[0]["fam"] == fl[1]["fam"]:
+            k2 = entries.index(fl[1])
+            entries[k2] = {"t": "h", "p": fl[1]["p"], "to": fl[0]["p"]}
     # an unrelated unique file and a decoy
     entries.append({"t": "f", "p": "r0/unrelated", "fam": 999, "len": 100, "flip": [], "mtime": 50})
     fmt = "default" if si % 2 == 0 else "json"
@@ -106,7 +113,8 @@ def prepare(seed, si, scratch):
     s.blockers = blockers_for(seed, si, s.op, s.spec, s.troot, s.target) if s.target else []
     put_blockers(s.blockers)
     from .. import gm
-    res, argv = gm.run_group({"hash_fn": "metro"}, ["r0"], s.troot, s.home, fmt=s.fmt)
+    s.hardlinked = any(e["t"] == "h" for e in s.spec["entries"])
+    res, argv = gm.run_group({"hash_fn": "metro", "match_links": s.hardlinked}, ["r0"], s.troot, s.home, fmt=s.fmt)
     if res.rc != 0:
         return None
     s.report = res.out
@@ -296,12 +304,15 @@ def _one(s, spec, si):
             actually = sum(1 for P in s.processed if P in after and after[P]["type"] == "f" and after[P]["ino"] != before[P]["ino"])
         else:
             actually = sum(1 for P in s.processed if P in after and after[P]["type"] == "l")
+        # a path that already was a hard link of a retained file looks the same whether `link` replaced it or not
+        kept_inos = {before[R]["ino"] for R in s.retained if R in before}
+        unknowable = sum(1 for P in s.processed if s.op == "link" and before[P]["ino"] in kept_inos)
         summ = dd.summary(errt)
-        if actually < len(s.processed) and "warn" not in errt.lower() and "error" not in errt.lower():
+        if actually + unknowable < len(s.processed) and "warn" not in errt.lower() and "error" not in errt.lower():
             return violation("C05:%s:failure-not-reported" % sigbase, "call %d (%s) failed with errno %s, %d of %d files were "
                              "processed, but nothing was logged" % (k, callname, en, actually, len(s.processed)), witness,
                              sig=(s.op, kind, callname))
-        if summ is not None and summ["count"] != actually:
+        if summ is not None and not (actually <= summ["count"] <= actually + unknowable):
             witness["summary"] = summ
             witness["actually_processed"] = actually
             return violation("C05:%s:failed-file-counted-as-processed" % sigbase,
@@ -311,7 +322,8 @@ def _one(s, spec, si):
     return ok(sig, {"op": s.op, "fault": kind, "k": k, "errno": en, "call": callname} if k < 3 and si < 2 else None,
               {"faults_fired": len(fired), "double_faults_fired": 1 if second_fired else 0, "kills": 1 if killed else 0, "ops": [s.op], "faulted_calls": [callname],
                "temp_sibling_states": 1 if temps else 0, "runs_with_occupied_move_target": 1 if s.blockers else 0,
-               "runs_moving_across_file_systems": 1 if s.target and "/dev/shm" in s.target else 0})
+               "runs_moving_across_file_systems": 1 if s.target and "/dev/shm" in s.target else 0,
+               "runs_on_match_links_reports_with_hard_linked_members": 1 if s.hardlinked else 0})
 
 
 def main(tier, seed, cases=None):
